@@ -241,10 +241,8 @@ fn main() {
         }
     }
     // seeded triangles: small / medium / display scale, with thin and nearly degenerate ones
-    // (Triangle::points() evaluates is_collapsed() -> LineJoin -> nearly_colinear_has_error(), whose
-    // denominator.pow(2) overflows i32 once the doubled area exceeds 46340: with the overflow checks of the
-    // harness build about a quarter of the +-300 triangles panic - recorded as `panic`, C08's subject - so
-    // half of the large ones stay within +-100, where the doubled area is at most 40000.)
+    // (Triangle::points() evaluates is_collapsed() -> LineJoin: the i32 products there overflowed for +-300 triangles
+    // before the repair D15c)
     let (n_small, n_big) = if th { (60_000, 10_000) } else { (1_500, 80) };
     for n in 0..n_small + n_big {
         let m = if n < n_small { if n % 3 == 0 { 12 } else { 40 } } else if n % 2 == 0 { 100 } else { 300 };
@@ -257,6 +255,18 @@ fn main() {
             _ => (rng.i32(-m, m), rng.i32(-m, m)),
         };
         run_case(&mut rec, &json!({"k":"tri","v":[pj(a), pj(b), pj(c)]}));
+    }
+    // display scale (the joins of the stroke path are computed for every triangle, also for points() and fills: their
+    // products exceed 32 bits from about full-HD size on, or for medium triangles far from the origin)
+    let mut big: Vec<[(i32, i32); 3]> = vec![[(0, 0), (1919, 0), (960, 1079)], [(0, 1000), (2400, 1000), (1200, 1012)],
+        [(20_000, 20_000), (20_300, 20_010), (20_100, 20_280)], [(-1500, 900), (1700, -1100), (1650, 1000)]];
+    for _ in 0..(if th { 150 } else { 4 }) {
+        let o = (rng.i32(-30_000, 30_000), rng.i32(-30_000, 30_000));
+        let m = *rng.pick(&[400, 1200, 2500]);
+        big.push([(o.0 + rng.i32(-m, m), o.1 + rng.i32(-m, m)), (o.0 + rng.i32(-m, m), o.1 + rng.i32(-m, m)), (o.0 + rng.i32(-m, m), o.1 + rng.i32(-m, m))]);
+    }
+    for t in &big {
+        run_case(&mut rec, &json!({"k":"tri","v":[pj(t[0]), pj(t[1]), pj(t[2])]}));
     }
     // pairs of triangles sharing the edge ab with c, d strictly on opposite sides
     let n_pairs = if th { 80_000 } else { 20_000 };
